@@ -229,6 +229,14 @@ func (s *Solver) CheckWith(extra *Term) SatResult {
 	s.Pop()
 	s.Queries++
 	s.Time += time.Since(t0)
+	if d := os.Getenv("GOSYM_SLOW"); d != "" && time.Since(t0) > 150*time.Millisecond {
+		f, _ := os.Create(fmt.Sprintf("%s/slow-%d-%d-%dms.smt2", d, os.Getpid(), s.Queries, time.Since(t0).Milliseconds()))
+		for _, l := range s.script {
+			fmt.Fprintln(f, l)
+		}
+		fmt.Fprintf(f, "(assert %s)\n(check-sat)\n", r)
+		f.Close()
+	}
 	if len(s.Errors) > nerr {
 		return Unknown
 	}
